@@ -5,7 +5,6 @@ package rows
 import (
 	"encoding/json"
 	"fmt"
-	"strings"
 	"time"
 
 	"verifh/checks"
@@ -26,9 +25,9 @@ func init() {
 		Level:     "exploration",
 		Technique: "bounded-exhaustive enumeration of event declarations (indexed x selected patterns, input orders, ABI types, integer boundary values), field selections and column orders, each run once through the real pipeline (simulated node → client → row builder → COPY → fake Postgres); oracle = cell-by-cell equality with the independent declared projection",
 		Rule: "cases = (a) events with 1..4 inputs: every distinct order of each type multiset x every {indexed,not} x {selected,not} pattern with >= 1 selected input, <= 3 indexed, dynamic types never indexed, with and without two block fields; " +
-			"(b) every integer width 8..256 step 8, signed and unsigned, as topic and as data, two value rotations, values from the sign/width boundary sets (0, 1, max, min, -1, 2^(n-1), 2^(n-1)-1) as sign-extended words; " +
+			"(b) every integer width 8..256 step 8, signed and unsigned, as topic and as data, two value rotations, values from the sign/width boundary sets (0, 1, max, min, -1, 2^(n-1), 2^(n-1)-1) AND the machine-word value boundaries +-(2^63-1), +-2^63, +-(2^63+1), +-(2^64-1), +-2^64, +-(2^64+1), +-12500000000000000000 wherever the width admits them, as sign-extended words, every value as topic and as data; " +
 			"(c) every field name alone (log / log-without-data / tx / trace indexing where the field is well-formed, two column namings) and every subset of size <= 3 of a representative field set in both column orders; " +
-			"(d) array inputs uint256[], address[], int64[], address[2], uint8[3] with 0..3 elements combined with scalar inputs before/after and an explicit abi_idx column. " +
+			"(d) array inputs uint256[], address[], int64[], int128[], address[2], uint8[3], bytes[], bytes[2], bytes[3], string[], string[2] and the nested bytes[][], bytes[2][], bytes[][2], string[][], string[2][], uint256[][], address[2][] (elements include empty byte strings / strings) with 0..3 elements combined with scalar inputs before/after and an explicit abi_idx column. " +
 			"Chains: 2-3 blocks, 1-2 txs per block, 1-3 matching logs per tx plus decoys, 1-2 traces per tx; every tx/receipt/trace field distinct and non-zero. A case is non-trivial when the declared projection has at least one row; cases are distinct declarations.",
 		Assumptions: []string{
 			"fake Postgres (h/simpg) decodes binary COPY by column type; simulated node (h/simeth) answers like a well-behaved geth/erigon",
@@ -131,8 +130,14 @@ func c11Specs(thorough bool) []spec {
 	for n := 8; n <= 256; n += 8 {
 		for _, sg := range []string{"uint", "int"} {
 			for _, ix := range []bool{false, true} {
-				for _, vo := range []int{0, 3} {
-					out = append(out, spec{Part: "ints", Inputs: []inSpec{{T: fmt.Sprintf("%s%d", sg, n), Ix: ix, Sel: true}}, Shape: 3, VOff: vo})
+				t := fmt.Sprintf("%s%d", sg, n)
+				// shape 3 has 9 logs: rotate by 9 until every boundary value of the type occurred (plus the old rotation by 3)
+				vos := []int{3}
+				for vo := 0; vo < len(boundary(t)); vo += 9 {
+					vos = append(vos, vo)
+				}
+				for _, vo := range vos {
+					out = append(out, spec{Part: "ints", Inputs: []inSpec{{T: t, Ix: ix, Sel: true}}, Shape: 3, VOff: vo})
 				}
 			}
 		}
@@ -197,8 +202,11 @@ func c11Specs(thorough bool) []spec {
 		}
 	}
 	// (d) arrays and the element index
-	arrTypes := []string{"uint256[]", "address[]", "int64[]", "address[2]", "uint8[3]"}
+	arrTypes := []string{"uint256[]", "address[]", "int64[]", "address[2]", "uint8[3]", "int128[]",
+		// arrays of dynamic elements (empty and non-empty byte strings / strings), fixed-size and nested
+		"bytes[]", "bytes[2]", "bytes[3]", "string[]", "string[2]", "bytes[][]", "bytes[2][]", "bytes[][2]", "string[][]", "string[2][]", "uint256[][]", "address[2][]"}
 	lens := [][]int{{0, 1, 2, 3}, {3, 0, 2, 1}, {1, 1, 0, 0}}
+	// (string arrays: an empty element used to be stored as NULL; repaired in /repo e5b1031)
 	for _, at := range arrTypes {
 		pats := [][]inSpec{
 			{{T: at, Sel: true}},
@@ -211,8 +219,8 @@ func c11Specs(thorough bool) []spec {
 		}
 		for pi, pat := range pats {
 			for li, ls := range lens {
-				if !strings.HasSuffix(at, "[]") && li > 0 {
-					continue
+				if _, dims := parseDims(at); (len(dims) != 1 || dims[0] != 0) && li > 0 {
+					continue // the element-count rotations only apply to one-dimensional dynamic arrays
 				}
 				for _, explicit := range []bool{false, true} {
 					s := spec{Part: "array", Inputs: pat, Shape: (pi + li) % 2, ArrLens: ls, VOff: pi}
